@@ -305,6 +305,7 @@ package app
 
 //@ func (p *Process) waitForStdOutErr
 //@   param cancel as cancelfunc
+//@   sets drains() := drains() + 1
 //@   assigns p.stdOutDone, p.stdErrDone, slept(), lastWait(), ctxCount(), lastTimeout(), cancelCalls[*]
 
 //@ func (p *Process) waitForDaemonCompletion
@@ -315,6 +316,8 @@ package app
 //@   param procColor as noeffectfunc
 //@   requires !held(p.logBuffer.mx) && bufWF(p.logBuffer)
 //@   ensures !held(p.logBuffer.mx) && bufWF(p.logBuffer)
+//@   ensures to-file: logged(p.logger, message) == old(logged(p.logger, message)) + 1
+//@   ensures to-memory: p.logBuffer.buffer[len(p.logBuffer.buffer) - 1] == message
 //@   assigns logged[*], observed[*], pclog.ProcessLogBuffer.buffer[*], heap(Elem.Str), acquires[*]
 //@ func (p *Process) validateProcess
 //@   assigns nothing
@@ -333,6 +336,9 @@ package app
 //@   ensures error-exitcode: p.procState.Status == "Error" ==> p.procState.ExitCode != 0
 //@   ensures unlocked(p)
 //@   ensures nolocks: old(noLocks()) ==> noLocks()
+//@   ensures drained-before-wait: forall i int :: old(waits()) <= i && i < waits() ==> waitAtDrains(i) == old(drains()) + (i - old(waits())) + 1
+//@   loop 1 invariant waits() - old(waits()) == drains() - old(drains()) && waits() >= old(waits())
+//@   loop 1 invariant forall i int :: old(waits()) <= i && i < waits() ==> waitAtDrains(i) == old(drains()) + (i - old(waits())) + 1
 //@   loop 1 invariant procWF(p) && unlocked(p) && bufWF(p.logBuffer) && (old(noLocks()) ==> noLocks())
 //@   loop 1 invariant starts() - old(starts()) == p.procState.Restarts - old(p.procState.Restarts)
 //@   loop 1 invariant forall i int :: old(starts()) < i && i < starts() ==> startAfterWait(i) >= ite(p.procConf.RestartPolicy.BackoffSeconds > 1, p.procConf.RestartPolicy.BackoffSeconds, 1) * 1000000000
@@ -346,6 +352,8 @@ package app
 //@   param redColor as noeffectfunc
 //@   requires !held(p.logBuffer.mx) && bufWF(p.logBuffer)
 //@   ensures !held(p.logBuffer.mx) && bufWF(p.logBuffer)
+//@   ensures to-file: logged(p.logger, message) == old(logged(p.logger, message)) + 1
+//@   ensures to-memory: p.logBuffer.buffer[len(p.logBuffer.buffer) - 1] == message
 //@   assigns logged[*], observed[*], pclog.ProcessLogBuffer.buffer[*], heap(Elem.Str), acquires[*]
 
 // ---------- C11: output capture ----------
